@@ -177,6 +177,10 @@ func (c *asmCtx) macro(m Macro, p *Program) {
 			if i == 0 && m.Dst > 0 {
 				c.pushU(uint64(m.Dst - 1))
 				c.emit(0x52)
+			} else if i == 0 && m.Dst < 0 {
+				// result sink in storage: SSTORE(-Dst, result)
+				c.pushU(uint64(-m.Dst))
+				c.emit(0x55)
 			} else {
 				c.emit(0x50)
 			}
